@@ -5,6 +5,7 @@ import (
 	"go/ast"
 	"go/token"
 	"go/types"
+	"golang.org/x/tools/go/cfg"
 	"sort"
 	"strings"
 )
@@ -110,7 +111,11 @@ func checkC13(p *Prog, r *Report) {
 	r.rule("C13.W5d", "a Read that consumed data passes the read token on before returning whenever data remains readable (len(bufptr) > 0 or PeekSize() > 0)", 3)
 	r.rule("C13.W6", "die is closed only inside dieOnce.Do; a second Close returns an error; socket errors are stored before their channel is closed", 5)
 	r.rule("C13.W7", "Read tests buffered data before blocking on a select that contains die; WriteBuffers passes a non-blocking die/error test before every kcp.Send", 2)
+	r.rule("C13.W10", "a deadline change reaches every goroutine blocked on that deadline: the wake-up is a broadcast (close of a channel), or a caller woken through the one-slot event channel passes the token on before it blocks again without having made progress", 0)
+	r.rule("C13.W9", "every receive loop reports a failed socket read: from err != nil every path to the return calls notifyReadError of the loop's owner (sessions may skip it only when the session itself is closed); the listener's notifyReadError propagates to every session it owns", 3)
 	r.rule("C13.W8", "every send on an event channel is non-blocking (select with default)", 2)
+
+	checkReadErrorReporting(p, r)
 
 	// ---- wait functions
 	var waits []*waitFunc
@@ -659,6 +664,12 @@ func checkDeadlineStores(p *Prog, r *Report, waits []*waitFunc) {
 			notif := p.notifiers(d.ev)
 			c := p.CFG(fi)
 			pt, _ := c.PointOf(call)
+			// W10: the wake-up must reach every blocked caller, not just one
+			if why := p.singleTokenWake(d.w, d.ev, notif); why != "" {
+				r.bad("C13.W10", fi.Name, p.Pos(call), construct+":single-token", why, "")
+			} else {
+				r.ok("C13.W10", fi.Name, p.Pos(call), construct+":single-token", "the deadline change reaches every blocked caller (broadcast, or the token is passed on before waiting again)")
+			}
 			res := c.FindPath(PathQuery{From: Point{pt.B, pt.I + 1}, ExitIsTarget: true, IsBarrier: func(x ast.Node, _ Point) bool { return p.isWakeNode(x, d.ev, notif) }})
 			if res.Found {
 				r.bad("C13.W5a", fi.Name, p.Pos(call), construct, "a path returns after storing the deadline without waking "+d.w.fi.Name+" through "+d.ev.Name(), c.DescribePath(res.Path))
@@ -757,7 +768,11 @@ func checkInputNotifies(p *Prog, r *Report) {
 						// that is reached: being on the path means its controlling tests were passed
 						return p.wakeIsAvailGuarded(fi, q, cx.ev, cx.avail)
 					}
-					return p.isNotifyCheck(fi, q, cx.ev, cx.avail)
+					if p.isNotifyCheck(fi, q, cx.ev, cx.avail) {
+						return true
+					}
+					// a helper method of the same session that tests and notifies on every path of its own
+					return p.callsNotifyingHelper(n, recv, cx.ev, cx.ev == chR, 0)
 				}})
 				if res.Found {
 					r.bad("C13.W5b", fi.Name, p.Pos(s.Call), construct, "a path from this state change to the return does not test the availability and post the token afterwards (a blocked caller is not woken although it could proceed)", c.DescribePath(res.Path))
@@ -1209,4 +1224,234 @@ func checkNotifyNonBlocking(p *Prog, r *Report) {
 		r.bad("C13.W8", "", "-", "event sends", "no send on an event channel found", "")
 	}
 	_ = sort.Strings
+}
+
+// checkReadErrorReporting: C13.W9.
+func checkReadErrorReporting(p *Prog, r *Report) {
+	type loopSpec struct {
+		typ, name string
+	}
+	n := 0
+	for _, ls := range []loopSpec{{"UDPSession", "defaultReadLoop"}, {"UDPSession", "readLoop"}, {"Listener", "defaultMonitor"}, {"Listener", "monitor"}} {
+		m := p.TryMethod(ls.typ, ls.name)
+		if m == nil {
+			continue // not part of this build configuration
+		}
+		fi := p.FuncOf(m)
+		if fi == nil {
+			continue
+		}
+		c := p.CFG(fi)
+		notify := p.Method(ls.typ, "notifyReadError")
+		// the error variable of the socket read
+		var errVars []*types.Var
+		ast.Inspect(fi.Body, func(x ast.Node) bool {
+			as, ok := x.(*ast.AssignStmt)
+			if !ok || len(as.Rhs) != 1 {
+				return true
+			}
+			call, ok := ast.Unparen(as.Rhs[0]).(*ast.CallExpr)
+			if !ok {
+				return true
+			}
+			sel, ok := ast.Unparen(call.Fun).(*ast.SelectorExpr)
+			if !ok || (sel.Sel.Name != "ReadFrom" && sel.Sel.Name != "ReadBatch") {
+				return true
+			}
+			if id, ok := as.Lhs[len(as.Lhs)-1].(*ast.Ident); ok {
+				if v, ok := p.Info.Defs[id].(*types.Var); ok {
+					errVars = append(errVars, v)
+				} else if v, ok := p.Info.Uses[id].(*types.Var); ok {
+					errVars = append(errVars, v)
+				}
+			}
+			return true
+		})
+		for _, ev := range errVars {
+			for _, b := range c.live {
+				ct := c.CondTerm(b)
+				if ct == nil || len(b.Succs) != 2 || ct.Key() != ne(tVar(ev), mk("nil")).Key() {
+					continue
+				}
+				n++
+				isNotify := func(nd ast.Node, _ Point) bool {
+					f := false
+					inspectShallow(nd, func(x ast.Node) bool {
+						if call, ok := x.(*ast.CallExpr); ok && p.Callee(call) == notify {
+							f = true
+						}
+						return true
+					})
+					return f
+				}
+				res := c.FindPath(PathQuery{From: Point{b.Succs[0], 0}, IsBarrier: isNotify, ExitIsTarget: true,
+					EdgeOK: func(from, to *cfg.Block) bool {
+						// a session may leave silently when it is closed itself: its waiters wake through die
+						if ls.typ != "UDPSession" {
+							return true
+						}
+						if t := c.CondTerm(from); t != nil && len(from.Succs) == 2 && to == from.Succs[0] {
+							e := p.ExpandHelpers(t)
+							if t.Op == "call" && t.Obj == p.TryMethod("UDPSession", "isClosed") {
+								return false
+							}
+							_ = e
+						}
+						return true
+					}})
+				construct := "failed socket read in " + fi.Name
+				if res.Found {
+					r.bad("C13.W9", fi.Name, p.Pos(b.Nodes[len(b.Nodes)-1]), construct, "a path leaves the receive loop after a failed read without notifyReadError: goroutines blocked in Read/Write/Accept on this socket (for a listener also the sessions it accepted) are never told that the socket is dead", c.DescribePath(res.Path))
+				} else {
+					r.ok("C13.W9", fi.Name, p.Pos(b.Nodes[len(b.Nodes)-1]), construct, "every path from err != nil to the return calls notifyReadError")
+				}
+			}
+		}
+	}
+	if n == 0 {
+		r.bad("C13.W9", "receive loops", "-", "failed socket read", "no receive loop with an error test found", "")
+	}
+	// the listener's notifier propagates to its sessions
+	lf := p.FuncOf(p.Method("Listener", "notifyReadError"))
+	okProp := false
+	var walk func(fi *FuncInfo)
+	walk = func(fi *FuncInfo) {
+		ast.Inspect(fi.Body, func(x ast.Node) bool {
+			rs, ok := x.(*ast.RangeStmt)
+			if !ok {
+				return true
+			}
+			if t := p.Term(rs.X); !(t.Op == "fld" && t.Obj == p.Field("Listener", "sessions")) {
+				return true
+			}
+			ast.Inspect(rs.Body, func(y ast.Node) bool {
+				if call, ok := y.(*ast.CallExpr); ok && p.Callee(call) == p.Method("UDPSession", "notifyReadError") {
+					okProp = true
+				}
+				return true
+			})
+			return true
+		})
+	}
+	walk(lf)
+	r.check(okProp, "C13.W9", lf.Name, p.Pos(lf.Node), "propagation to accepted sessions", "range over Listener.sessions calling notifyReadError", "the listener's socket error is not propagated to the sessions that share its socket: their blocked Reads never return")
+}
+
+// callsNotifyingHelper: node n calls a method H on the same session (receiver
+// variable recv) and every path through H passes the availability test with its
+// wake-up for ev (read: PeekSize() > 0, otherwise WaitSnd() < snd_wnd).
+func (p *Prog) callsNotifyingHelper(n ast.Node, recv *types.Var, ev *types.Var, read bool, depth int) bool {
+	if depth > 2 {
+		return false
+	}
+	found := false
+	inspectShallow(n, func(x ast.Node) bool {
+		call, ok := x.(*ast.CallExpr)
+		if !ok || found {
+			return true
+		}
+		sel, ok := ast.Unparen(call.Fun).(*ast.SelectorExpr)
+		if !ok {
+			return true
+		}
+		if id, ok := ast.Unparen(sel.X).(*ast.Ident); !ok || p.Info.Uses[id] != recv {
+			return true
+		}
+		f := p.Callee(call)
+		if f == nil || f.Pkg() != p.Types {
+			return true
+		}
+		h := p.FuncOf(f)
+		if h == nil || h.Body == nil || p.recvVar(h) == nil {
+			return true
+		}
+		if p.helperAlwaysNotifies(h, ev, read, depth) {
+			found = true
+		}
+		return true
+	})
+	return found
+}
+
+func (p *Prog) helperAlwaysNotifies(h *FuncInfo, ev *types.Var, read bool, depth int) bool {
+	key := fmt.Sprintf("helpernotifies:%s:%s:%v", h.Name, ev.Name(), read)
+	if v, ok := p.memo[key].(bool); ok {
+		return v
+	}
+	p.memo[key] = false
+	c := p.CFG(h)
+	hrecv := p.recvVar(h)
+	kcp := tFld(tVar(hrecv), p.Field("UDPSession", "kcp"))
+	var want *Term
+	if read {
+		want = p.readAvailTerm(kcp)
+	} else {
+		want = p.writeAvailTerm(kcp)
+	}
+	avail := func(t *Term) bool { return t.Key() == want.Key() }
+	res := c.FindPath(PathQuery{From: Point{c.Entry(), 0}, ExitIsTarget: true, IsBarrier: func(n ast.Node, q Point) bool {
+		if p.isWakeNode(n, ev, p.notifiers(ev)) {
+			return p.wakeIsAvailGuarded(h, q, ev, avail)
+		}
+		if p.isNotifyCheck(h, q, ev, avail) {
+			return true
+		}
+		return p.callsNotifyingHelper(n, hrecv, ev, read, depth+1)
+	}})
+	p.memo[key] = !res.Found
+	return !res.Found
+}
+
+// singleTokenWake: why a deadline change can reach only one of several blocked
+// callers of w (empty string if it reaches all).
+func (p *Prog) singleTokenWake(w *waitFunc, ev *types.Var, notif map[*types.Func]bool) string {
+	// (a) a broadcast: the event channel is closed somewhere (close wakes every receiver)
+	broadcast := false
+	for _, f := range p.Files {
+		ast.Inspect(f, func(n ast.Node) bool {
+			if call, ok := n.(*ast.CallExpr); ok && p.BuiltinName(call) == "close" && len(call.Args) == 1 {
+				if t := p.Term(call.Args[0]); t.Op == "fld" && t.Obj == ev {
+					broadcast = true
+				}
+			}
+			return true
+		})
+	}
+	if broadcast {
+		return ""
+	}
+	// (b) baton passing on the no-progress path: from the event arm back to the blocking select
+	// (without returning) the token is posted again
+	c := p.CFG(w.fi)
+	var evBlk, selAgain *cfg.Block
+	for _, b := range c.live {
+		if b.Kind == cfg.KindSelectCaseBody && b.Stmt == w.event {
+			evBlk = b
+		}
+	}
+	if evBlk == nil {
+		return "the wait function has no event arm"
+	}
+	_ = selAgain
+	res := c.FindPath(PathQuery{From: Point{evBlk, 0},
+		IsBarrier: func(n ast.Node, _ Point) bool {
+			if p.isWakeNode(n, ev, notif) {
+				return true
+			}
+			_, isRet := n.(*ast.ReturnStmt)
+			return isRet
+		},
+		OnBlock: func(b *cfg.Block) (bool, bool) {
+			// reaching any arm of the blocking select again = the caller waited again
+			if b.Kind == cfg.KindSelectCaseBody && b != evBlk {
+				if cc, ok := b.Stmt.(*ast.CommClause); ok && (cc == w.timer || cc == w.die || cc == w.sockerr || cc == w.event) {
+					return true, false
+				}
+			}
+			return false, false
+		}})
+	if res.Found {
+		return "the deadline change is announced through the one-slot event channel " + ev.Name() + ": with several goroutines blocked in " + w.fi.Name + " exactly one receives the token, re-reads the deadline and (having nothing to do) blocks again without passing the token on — the others keep waiting with the old deadline (or none) and do not time out"
+	}
+	return ""
 }
